@@ -42,14 +42,14 @@ def _u_rows(N, d):
     return np.array([[vdc(i + 1, 2), vdc(i + 1, 3)][:d] for i in range(N)])
 
 
-def build(sizes, betas, logzs, lv, d):
+def build(sizes, betas, logzs, lv, d, logl_dtype=float):
     from tempest.state_manager import StateManager
 
     st = StateManager(d)
     U = _u_rows(sum(sizes), d)
     o = 0
     for t, n in enumerate(sizes):
-        st.update_current({"u": U[o:o + n], "x": 20 * U[o:o + n] - 10, "logl": np.array(lv[o:o + n], dtype=float), "beta": float(betas[t]),
+        st.update_current({"u": U[o:o + n], "x": 20 * U[o:o + n] - 10, "logl": np.array(lv[o:o + n], dtype=logl_dtype), "beta": float(betas[t]),
                            "logz": float(logzs[t]), "iter": t + 1, "calls": 0, "ess": 1.0, "steps": 1, "acceptance": 1.0, "efficiency": 1.0})
         st.commit_current_to_history()
         o += n
@@ -59,10 +59,13 @@ def build(sizes, betas, logzs, lv, d):
 def one_transition(res, case, sizes, betas, logzs, lv, npart, ratio, vv, d=1):
     from tempest.steps.reweight import Reweighter
 
-    st = build(sizes, betas, logzs, lv, d)
+    # log-likelihood values of the lattice are whole numbers: they are also fed as an integer-typed pool (a vectorised
+    # likelihood may legally return an integer ndarray)
+    as_int = bool(case.get("int_logl")) and all(float(v).is_integer() for v in lv)
+    st = build(sizes, betas, logzs, lv, d, logl_dtype=np.int64 if as_int else float)
     beta_prev = float(betas[-1])
     rw = Reweighter(st, None, n_particles=npart, ess_ratio=ratio, volume_variation=vv, ESS_TOLERANCE=0.01, BETA_TOLERANCE=1e-4)
-    cc = {"kind": "rw1", "sizes": list(sizes), "betas": list(betas), "logzs": list(logzs), "lv": list(lv), "npart": npart, "ratio": ratio, "vv": vv, "d": d}
+    cc = {"kind": "rw1", "int_logl": as_int, "sizes": list(sizes), "betas": list(betas), "logzs": list(logzs), "lv": list(lv), "npart": npart, "ratio": ratio, "vv": vv, "d": d}
     try:
         w = rw.run()
     except Exception as e:
@@ -265,7 +268,14 @@ def run_stateful(case):
     return res
 
 
-KINDS = {"edge": run_edge, "stateful": run_stateful, "block": run_block, "rw1": run_rw1, "first": run_first, "pipe": run_pipe, "pipe1": run_pipe1}
+def run_duo(case):
+    """Two samplers alive in one process, every interleaving of their iterations and read-only queries: the recorded temperature / ESS /
+    evidence / weights of each must refer to its own history."""
+    from mc import session
+    return session.run_duo(case, lambda: [schedule_monitor("sched")])
+
+
+KINDS = {"duo": run_duo, "edge": run_edge, "stateful": run_stateful, "block": run_block, "rw1": run_rw1, "first": run_first, "pipe": run_pipe, "pipe1": run_pipe1}
 
 FACTORS = [
     ("sample", ["tpcn", "rwm"]),
@@ -291,7 +301,7 @@ def plan(ctx):
                     lean = 1 + (hash((sizes, betas)) + ctx.seed) % 2
                     if len(set(sizes)) == 1 and (hash((sizes, betas)) + ctx.seed) % 3:
                         continue
-                blocks.append({"kind": "block", "sizes": list(sizes), "betas": list(betas), "lean": lean, "full_n": 4 if T == 1 else (4 if th else 3), "d": 1 + (len(blocks) % 2),
+                blocks.append({"kind": "block", "int_logl": (len(blocks) % 3 == 0), "sizes": list(sizes), "betas": list(betas), "lean": lean, "full_n": 4 if T == 1 else (4 if th else 3), "d": 1 + (len(blocks) % 2),
                                "sample": len(blocks) in (3, 40)})
     ctx.bounds.update({"synthetic": {"T": [1, 2, 3] if th else [1, 2], "batch_sizes": [2, 3, 4], "betas_sorted_from": BETAS, "logZ": LOGZ, "logL": LOGL,
                                      "n_particles x ess_ratio": PAIRS, "modes(vv target or None=ESS)": MODES, "blocks": len(blocks)}})
@@ -302,6 +312,9 @@ def plan(ctx):
     stf = [{"kind": "stateful", "n": n, "ratio": r, "vv": vv, "depth": 5 if th else 4, "first": f}
            for (n, r) in ((8, 1.0), (16, 2.0), (64, 2.0)) for vv in (None, 0.02, 0.05, 0.5) for f in "ASFH"]
     ctx.explore("stateful-reweighter-sequences", stf)
+    dcfg = dict(n_particles=8, d=1, ess_ratio=1.0, n_total=10 ** 6, eval="scalar", clustering=False)
+    duo = [{"kind": "duo", "cfg": dict(dcfg, vv=vv), "base": ctx.seed, "depth": 5 if th else 4, "shard": [sh, 8]} for vv in (None, 0.5) for sh in range(8)]
+    ctx.explore("two-samplers-interleaved", duo)
     strength = 3 if th else 2
     rows = lattice.covering_array(FACTORS, strength=strength, seed=ctx.seed)
     cov, tot = lattice.count_covered(rows, FACTORS, strength)
